@@ -22,6 +22,21 @@ int main(int argc, char** argv)
             if (!ok) { if (!bad) first = std::string(op ? "insert_or_assign" : "try_emplace") + " of \"" + name + "\" with hint " + (hint <= n ? std::to_string(hint) : std::string("none")) + " into " + base.to_string() + " gives " + j.to_string(); ++bad; }
         }
     }
-    if (bad) VX_REPRO(bad << " of " << total << " insertions leave the object different from the map model (duplicate or misplaced key), first: " << first);
-    VX_NOREPRO("all " << total << " insertions agree with the map model");
+    // merge / merge_or_update, all four overloads (const&, &&, hint + const&, hint + &&): all pairs of objects over the names a..f with up to 3 members each, every hint
+    { const char* nm[] = {"a", "b", "c", "d", "e", "f"};
+      for (unsigned tm = 0; tm < 64; ++tm) for (unsigned sm = 0; sm < 64; ++sm) { if (__builtin_popcount(tm) > 3 || __builtin_popcount(sm) > 3) continue;
+        json t(json_object_arg), s(json_object_arg); for (int k = 0; k < 6; ++k) { if (tm & (1u << k)) t.try_emplace(nm[k], k); if (sm & (1u << k)) s.try_emplace(nm[k], 100 + k); }
+        for (int upd = 0; upd < 2; ++upd) for (int mode = 0; mode < 4; ++mode) for (size_t h = 0; h <= (mode >= 2 ? t.size() : 0); ++h) {
+            std::map<std::string, int> ref; for (auto& m : t.object_range()) ref[std::string(m.key())] = m.value().as<int>();
+            for (auto& m : s.object_range()) { std::string k(m.key()); if (upd || !ref.count(k)) ref[k] = m.value().as<int>(); }
+            json x = t; ++total;
+            if (mode == 0) { if (upd) x.merge_or_update(s); else x.merge(s); } else if (mode == 1) { if (upd) x.merge_or_update(json(s)); else x.merge(json(s)); }
+            else if (mode == 2) { if (upd) x.merge_or_update(x.object_range().begin() + h, s); else x.merge(x.object_range().begin() + h, s); }
+            else { if (upd) x.merge_or_update(x.object_range().begin() + h, json(s)); else x.merge(x.object_range().begin() + h, json(s)); }
+            bool ok = x.size() == ref.size(); auto it = ref.begin();
+            for (const auto& kv : x.object_range()) { if (it == ref.end() || kv.key() != it->first || kv.value().as<int>() != it->second) { ok = false; break; } ++it; }
+            if (!ok) { if (!bad) first = std::string(upd ? "merge_or_update" : "merge") + (mode == 0 ? "(const&)" : mode == 1 ? "(&&)" : mode == 2 ? "(hint, const&)" : "(hint, &&)") + " of " + s.to_string() + " into " + t.to_string() + " gives " + x.to_string(); ++bad; }
+        } } }
+    if (bad) VX_REPRO(bad << " of " << total << " insertions / merges leave the object different from the map model (duplicate or misplaced key), first: " << first);
+    VX_NOREPRO("all " << total << " insertions and merges agree with the map model");
 }
